@@ -621,9 +621,10 @@ let cluster_dump (c : cluster) : string =
     let n = x.cn_node in
     let name = string_of_cl name in
     Buffer.add_string b (Printf.sprintf " node=%s role=%s%s" name (role_letter n.n_role) (if x.cn_dead then " DEAD" else ""));
-    let ms = List.map (fun (mn, (r, _)) ->
+    let ms = List.map (fun (mn, (r, q)) ->
         let mn = string_of_cl mn in
-        let conn = List.exists (fun l -> string_of_cl l.l_from = name && string_of_cl l.l_to = mn) c.c_links in
+        let conn = List.exists (fun l -> string_of_cl l.l_from = name && string_of_cl l.l_to = mn) c.c_links
+                   && not (is_nosender q) in
         Printf.sprintf "%s:%s:%s" mn (role_name r) (if conn then "c" else "-")) n.n_members in
     Buffer.add_string b (Printf.sprintf " members=[%s]" (String.concat "," (List.sort compare ms)));
     Buffer.add_string b (Printf.sprintf " pending=%d" (List.length n.n_pending));
@@ -637,6 +638,14 @@ let cluster_dump (c : cluster) : string =
   let ls = List.sort compare (List.filter_map (fun l ->
       if l.l_open then Some (Printf.sprintf "%s>%s:%s/%s" (string_of_cl l.l_from) (string_of_cl l.l_to) (dec_of_n l.l_sent) (dec_of_n l.l_back)) else None) c.c_links) in
   Buffer.add_string b (Printf.sprintf " links=[%s]" (String.concat "," ls));
+  let trim s = String.trim s in
+  let qs = List.sort compare (List.filter_map (fun l ->
+      if l.l_open && (l.l_hs <> [] || l.l_q <> [] || l.l_replies <> []) then
+        Some (Printf.sprintf "%s>%s:%s<%s" (string_of_cl l.l_from) (string_of_cl l.l_to)
+                (String.concat "|" (List.map (fun x -> esc (trim (string_of_cl x))) (l.l_hs @ l.l_q)))
+                (String.concat "|" (List.map (fun x -> esc (trim (string_of_cl x))) l.l_replies)))
+      else None) c.c_links) in
+  if qs <> [] then Buffer.add_string b (Printf.sprintf " queues=[%s]" (String.concat "," qs));
   Buffer.contents b
 
 let find_link (c : cluster) (from : string) (to_ : string) : int option =
@@ -657,14 +666,22 @@ let run_cluster (path : string) =
     (* give every node its own clock range so that op ids never collide across nodes *)
     let nodes = List.mapi (fun i (nm, x) ->
         (nm, { x with cn_node = n_set_clock x.cn_node (n_of_dec (Printf.sprintf "1%d00000000000000000" (i + 1))) })) nodes in
-    let c = ref { c_nodes = nodes; c_links = []; c_cross = N0 } in
+    let timeout = List.fold_left (fun acc h -> if starts_with_s h "T=" then n_of_dec (String.sub h 2 (String.length h - 2)) else acc)
+        (n_of_int 1000) cs.header in
+    let e = ref { e_c = { c_nodes = nodes; c_links = []; c_cross = N0 }; e_frames = []; e_timeout = timeout; e_done = [] } in
+    let c = ref !e.e_c in
+    let sync_in () = e := { !e with e_c = !c } in
+    let sync_out () = c := !e.e_c in
     List.iter (fun op ->
       let before = !c.c_cross in
-      let res = match op with
+      sync_in ();
+      let res0 = match op with
         | ["conn"; node] -> let (c', i) = client_conn !c (cl_of_string node) in c := c'; Printf.sprintf "Conn %d" (int_of_nat i)
         | ["cmd"; node; sid; line] ->
-          let (c', r) = client_cmd !c (cl_of_string node) (nat_of_int (int_of_string sid)) (cl_of_string (unhex line)) in
-          c := c'; resp_str r
+          let (e', r) = ecmd !e (cl_of_string node) (nat_of_int (int_of_string sid)) (cl_of_string (unhex line)) in
+          e := e'; sync_out ();
+          (match r with COut r -> resp_str r | CSuspended -> "Suspended" | CBusy -> "Busy")
+        | ["tick"] -> let k = List.length !e.e_frames in e := tick_frames !e; sync_out (); Printf.sprintf "Ticked %d" k
         | ["rsv"; node; sid; idx; value] ->
           let key = node ^ "/" ^ sid in
           let notes = (try Hashtbl.find cnotices key with Not_found -> []) in
@@ -685,11 +702,11 @@ let run_cluster (path : string) =
         | ["deliver"; f; t] ->
           (match find_link !c f t with
            | None -> "NoLink"
-           | Some i -> (match deliver !c (nat_of_int i) with Some c' -> c := c'; "Delivered" | None -> "Nothing"))
+           | Some i -> (match edeliver !e (nat_of_int i) with Some e' -> e := e'; sync_out (); "Delivered" | None -> "Nothing"))
         | ["reply"; t; f] ->
           (match find_link !c f t with
            | None -> "NoLink"
-           | Some i -> (match reply !c (nat_of_int i) with Some c' -> c := c'; "Replied" | None -> "Nothing"))
+           | Some i -> (match ereply !e (nat_of_int i) with Some e' -> e := e'; sync_out (); "Replied" | None -> "Nothing"))
         | ["drop"; f; t] ->
           (match drop_link !c (cl_of_string f) (cl_of_string t) with
            | (c', Some k) -> c := c'; Printf.sprintf "Dropped %d" (int_of_nat k)
@@ -698,13 +715,23 @@ let run_cluster (path : string) =
           (match resync !c (cl_of_string f) (cl_of_string t) with
            | Some c' -> c := c'; "Resync"
            | None -> "NoLink")
-        | ["settle"] ->
-          let (c', ok) = settle (nat_of_int 200) !c in c := c'; if ok then "Settled" else "NotSettled 201"
+        | "settle" :: b ->
+          let budget = (match b with [k] -> int_of_string k | _ -> 200) in
+          let (e', ok) = esettle (nat_of_int budget) !e in e := e'; sync_out ();
+          if ok then "Settled" else Printf.sprintf "NotSettled %d" (budget + 1)
         | ["flush"; node] ->
           (match get_cn !c (cl_of_string node) with
            | Some x -> c := put_cn !c (cl_of_string node) (cn_set_node x (flush_snapshots x.cn_node)); "Flushed"
            | None -> "Flushed")
         | _ -> failwith "bad cluster op" in
+      (* ops that went through the plain cluster functions changed [c] only *)
+      (match op with
+       | ("cmd" | "tick" | "deliver" | "reply" | "settle") :: _ -> ()
+       | _ -> sync_in ());
+      let res = if !e.e_done = [] then res0 else begin
+          let d = String.concat "," (List.map (fun (nm, k) -> Printf.sprintf "%s/%d:Ok" (string_of_cl nm) (int_of_nat k)) !e.e_done) in
+          e := { !e with e_done = [] };
+          Printf.sprintf "%s done=[%s]" res0 d end in
       (* client inboxes *)
       let parts = ref [] in
       c := { !c with c_nodes = List.map (fun (nm, x) ->
@@ -723,7 +750,9 @@ let run_cluster (path : string) =
       let inb = if !parts = [] then "-" else String.concat ";" (List.rev !parts) in
       let delta = BigZ.sub (z_of_n !c.c_cross) (z_of_n before) in
       Printf.printf "%s | %s | x=%s\n" res inb (BigZ.to_string delta);
-      Printf.printf "D%s\n" (cluster_dump !c)) cs.ops;
+      sync_in ();
+      Printf.printf "D%s%s\n" (cluster_dump !c)
+        (if !e.e_frames = [] then "" else Printf.sprintf " elections=%d" (List.length !e.e_frames))) cs.ops;
     print_string "E\n") (read_cases path)
 
 (* ---------- schedules ---------- *)
